@@ -406,8 +406,10 @@ constexpr auto operator-(QuantityPoint<U1, R1> p1, QuantityPoint<U2, R2> p2) {
 #if defined(__cpp_impl_three_way_comparison) && __cpp_impl_three_way_comparison >= 201907L
 template <typename U1, typename R1, typename U2, typename R2>
 constexpr auto operator<=>(const QuantityPoint<U1, R1> &lhs, const QuantityPoint<U2, R2> &rhs) {
+    // Convert to the common rep first, so that this agrees with the other comparison operators.
     using U = CommonPointUnitT<U1, U2>;
-    return lhs.in(U{}) <=> rhs.in(U{});
+    using R = std::common_type_t<R1, R2>;
+    return rep_cast<R>(lhs).in(U{}) <=> rep_cast<R>(rhs).in(U{});
 }
 #endif
 
